@@ -2,7 +2,7 @@
     the family number; the verdict says whether the implementation's observed
     behaviour equals the model's. *)
 From Coq Require Import List ZArith Bool.
-From FF Require Import Sx Dispatch TaskTree StoreModel StoreCheck PreCheck EngineMon TaskRun ShareData Vars KeeperCheck MutexCheck Commander ShutdownCheck EngineCheck TablesCheck.
+From FF Require Import Sx Dispatch TaskTree StoreModel StoreCheck PreCheck EngineMon TaskRun ShareData Vars KeeperCheck MutexCheck Commander ShutdownCheck EngineCheck TablesCheck ExecRegCheck.
 Import ListNotations.
 Local Open Scope Z_scope.
 
@@ -48,6 +48,7 @@ Definition run_case (family : Z) (c : sx) : verdict :=
   | 80 => check_admit c
   | 90 => check_skel c
   | 91 => check_tables c
+  | 95 => check_execreg c
   | 130 => check_core c
   | _ => if (100 <? family) && (family <? 200)
          then match check_journal_store c with
